@@ -842,7 +842,7 @@ pub fn run(args: &Args) -> i32 {
     ev.assume("duplicate route keys / duplicate backends inside one file are operator errors and are not generated in valid files");
     ev.floor("loader", "valid", 0.4);
     ev.floor("loader", "256+_messages", 0.01);
-    let cases = args.cases(1_500, 40_000);
+    let cases = args.cases(30_000, 600_000);
     engine::with_quiet_stdout(|| engine::run_pbt(&mut ev, args, "loader", cases, strategy, check));
     ev.finish()
 }
